@@ -1,15 +1,12 @@
 #!/bin/bash
-# background job (vp run): the seeded sweep in eight parallel slices, results concatenated into SWEEP.md
+# background job (vp run): the seeded sweep in five parallel slices, results concatenated into SWEEP.md
 run() { SWEEP_VERIF=$PWD SWEEP_OUT=$PWD/SWEEP_$1.md tools/sweep_seeded.py "${@:2}" > sweep_$1.log 2>&1; }
-run 1 C01 C02 C03 C04 C05 C06 C07 C08 C09 C10 &
-run 2 C11 C12 C13 C14 C15 C16 C17 C18 C19 C20 &
-run 3 W X Y &
-run 4 Z A R &
-run 5 S T U &
-run 6 V P Q &
-run 7 M N K J &
-run 8 L H G F &
+run 1 C01 C02 C03 C04 C05 C06 C07 C08 C09 C10 W X &
+run 2 C11 C12 C13 C14 C15 C16 C17 C18 C19 C20 Y Z A &
+run 3 R S T U V &
+run 4 P Q M N K &
+run 5 J L H G F &
 wait
-{ head -4 SWEEP_1.md; for i in 1 2 3 4 5 6 7 8; do tail -n +5 SWEEP_$i.md; done; } > SWEEP.md
+{ head -4 SWEEP_1.md; for i in 1 2 3 4 5; do tail -n +5 SWEEP_$i.md; done; } > SWEEP.md
 echo "sweep done: $(grep -c '| caught |' SWEEP.md) caught, $(grep -c 'NOT CAUGHT\|DOES NOT APPLY' SWEEP.md) not"
 grep 'NOT CAUGHT\|DOES NOT APPLY' SWEEP.md
